@@ -349,3 +349,114 @@ pub proof fn lemma_region_to_pending(r: Map<usize, usize>, h: Map<usize, usize>,
         assert(cover4(r, h, p, v, y)); assert(cover4(r, h, p, v, x));
     }
 }
+
+// ---- Layout::from (reopen): the holes are exactly the gaps between the regions, in ascending start order ----
+
+pub open spec fn in_reg(me: Map<usize, usize>, keys: Seq<usize>, j: int, x: int) -> bool { keys[j] <= x < keys[j] + me[keys[j]] }
+
+// state after processing keys[0..k): holes lie strictly below the last processed start, are merged, disjoint from every region,
+// prev_end is the end of the last processed region, and everything below prev_end is covered by a hole or a processed region
+pub open spec fn from_inv(me: Map<usize, usize>, keys: Seq<usize>, k: int, holes: Map<usize, usize>, prev_end: int) -> bool {
+    &&& 0 <= k <= keys.len()
+    &&& pairwise_disjoint(me)
+    &&& (forall|i: int, j: int| 0 <= i < j < keys.len() ==> keys[i] < keys[j])
+    &&& (forall|i: int| 0 <= i < keys.len() ==> me.contains_key(#[trigger] keys[i]))
+    &&& (forall|s: usize| me.contains_key(s) ==> keys.contains(s))
+    &&& prev_end == (if k == 0 { 0 } else { keys[k - 1] + me[keys[k - 1]] })
+    &&& (k == 0 ==> holes == Map::<usize, usize>::empty())
+    &&& (k > 0 ==> forall|h: usize| #[trigger] holes.contains_key(h) ==> h + holes[h] <= keys[k - 1])
+    &&& disjoint_maps(me, holes)
+    &&& (forall|x: int| 0 <= x < prev_end <==> (covers(holes, x) || exists|j: int| 0 <= j < k && #[trigger] in_reg(me, keys, j, x)))
+}
+
+// the next start is not below prev_end (regions are disjoint and visited in ascending order)
+pub proof fn lemma_from_order(me: Map<usize, usize>, keys: Seq<usize>, k: int, holes: Map<usize, usize>, prev_end: int)
+    requires from_inv(me, keys, k, holes, prev_end), k < keys.len()
+    ensures prev_end <= keys[k], !holes.contains_key(prev_end as usize) || prev_end > usize::MAX, 0 <= prev_end <= usize::MAX
+{
+    if k > 0 {
+        assert(me.contains_key(keys[k - 1]) && me.contains_key(keys[k]) && keys[k - 1] < keys[k]);
+        if holes.contains_key(prev_end as usize) { assert(prev_end + holes[prev_end as usize] <= keys[k - 1]); }
+    }
+}
+
+pub proof fn lemma_from_step(me: Map<usize, usize>, keys: Seq<usize>, k: int, h0: Map<usize, usize>, pe0: int, h1: Map<usize, usize>, pe1: int)
+    requires
+        from_inv(me, keys, k, h0, pe0), k < keys.len(), separated(h0),
+        pe1 == keys[k] + me[keys[k]],
+        h1 == (if pe0 != keys[k] { h0.insert(pe0 as usize, (keys[k] - pe0) as usize) } else { h0 }),
+    ensures from_inv(me, keys, k + 1, h1, pe1), separated(h1)
+{
+    lemma_from_order(me, keys, k, h0, pe0);
+    let s = keys[k];
+    assert(me.contains_key(s));
+    if pe0 != s {
+        let hs = pe0 as usize; let hz = (s - pe0) as usize;
+        assert(separated(h1)) by {
+            assert forall|a: usize| #[trigger] h1.contains_key(a) implies h1[a] > 0 && a + h1[a] <= usize::MAX by { if a != hs { assert(h0.contains_key(a)); } }
+            assert forall|a: usize, b: usize| h1.contains_key(a) && h1.contains_key(b) && a < b implies a + h1[a] < b by {
+                if b == hs { assert(h0.contains_key(a)); assert(a + h0[a] <= keys[k - 1]); assert(me[keys[k - 1]] > 0); }
+                else if a == hs { assert(h0.contains_key(b)); assert(b + h0[b] <= keys[k - 1]); }
+                else { assert(h0.contains_key(a) && h0.contains_key(b)); }
+            }
+        }
+        assert(disjoint_maps(me, h1)) by {
+            assert forall|a: usize, b: usize| me.contains_key(a) && h1.contains_key(b) implies (a + me[a] <= b || b + h1[b] <= a) by {
+                if b == hs {
+                    // region a is either processed (ends <= pe0) or not yet (starts >= s)
+                    assert(keys.contains(a));
+                    let j = choose|j: int| 0 <= j < keys.len() && keys[j] == a;
+                    if j < k { if j < k - 1 { assert(keys[j] < keys[k - 1]); assert(me.contains_key(keys[k - 1])); } }
+                    else { if j > k { assert(keys[k] < keys[j]); } }
+                } else { assert(h0.contains_key(b)); }
+            }
+        }
+    }
+    assert forall|h: usize| #[trigger] h1.contains_key(h) implies h + h1[h] <= keys[k] by {
+        if h0.contains_key(h) && k > 0 { assert(h + h0[h] <= keys[k - 1]); assert(keys[k - 1] < keys[k]); }
+    }
+    assert forall|x: int| 0 <= x < pe1 <==> (covers(h1, x) || exists|j: int| 0 <= j < k + 1 && #[trigger] in_reg(me, keys, j, x)) by {
+        if covers(h1, x) {
+            let a = choose|a: usize| h1.contains_key(a) && a <= x < a + h1[a];
+            if h0.contains_key(a) && h1[a] == h0[a] { assert(covers(h0, x)); }
+        }
+        if exists|j: int| 0 <= j < k + 1 && #[trigger] in_reg(me, keys, j, x) {
+            let j = choose|j: int| 0 <= j < k + 1 && #[trigger] in_reg(me, keys, j, x);
+            if j < k { assert(exists|j2: int| 0 <= j2 < k && #[trigger] in_reg(me, keys, j2, x)); }
+        }
+        if 0 <= x < pe1 {
+            if x < pe0 {
+                if covers(h0, x) { let a = choose|a: usize| h0.contains_key(a) && a <= x < a + h0[a]; assert(h1.contains_key(a) && h1[a] == h0[a] && a <= x < a + h1[a]); }
+                else { let j = choose|j: int| 0 <= j < k && #[trigger] in_reg(me, keys, j, x); assert(0 <= j < k + 1 && in_reg(me, keys, j, x)); }
+            } else if x < s {
+                assert(h1.contains_key(pe0 as usize) && pe0 <= x < pe0 + h1[pe0 as usize]);
+            } else {
+                assert(0 <= k < k + 1 && in_reg(me, keys, k, x));
+            }
+        }
+    }
+}
+
+pub proof fn lemma_from_done(me: Map<usize, usize>, keys: Seq<usize>, holes: Map<usize, usize>, prev_end: int)
+    requires from_inv(me, keys, keys.len() as int, holes, prev_end), separated(holes)
+    ensures tiles4(me, holes, Map::<usize, usize>::empty(), Map::<usize, usize>::empty())
+{
+    let e = Map::<usize, usize>::empty();
+    assert forall|x: int| !covers(e, x) by {}
+    assert forall|x: int| covers(me, x) <==> (exists|j: int| 0 <= j < keys.len() && #[trigger] in_reg(me, keys, j, x)) by {
+        if covers(me, x) {
+            let a = choose|a: usize| me.contains_key(a) && a <= x < a + me[a];
+            assert(keys.contains(a));
+            let j = choose|j: int| 0 <= j < keys.len() && keys[j] == a;
+            assert(in_reg(me, keys, j, x));
+        }
+        if exists|j: int| 0 <= j < keys.len() && #[trigger] in_reg(me, keys, j, x) {
+            let j = choose|j: int| 0 <= j < keys.len() && #[trigger] in_reg(me, keys, j, x);
+            assert(me.contains_key(keys[j]) && keys[j] <= x < keys[j] + me[keys[j]]);
+        }
+    }
+    assert forall|x: int, y: int| 0 <= x <= y && #[trigger] cover4(me, holes, e, e, y) implies #[trigger] cover4(me, holes, e, e, x) by {
+        assert(0 <= y < prev_end);
+        assert(0 <= x < prev_end);
+    }
+}
